@@ -20,7 +20,8 @@ QUIZX_BIN = os.path.join(HARNESS, "target", "debug", "quizx")
 MC = os.path.join(VERIF, "mc")
 SPEC = os.path.join(VERIF, "spec")
 WORK = os.path.join(VERIF, "work") if not os.environ.get("VERIF_HARNESS_DIR") else os.path.join(VERIF, "work", "mut_" + os.path.basename(os.environ["VERIF_HARNESS_DIR"]))
-NCPU = os.cpu_count() or 4
+# VERIF_PAR caps the number of TLC workers / parallel shard validations (shared machine); registered commands never set it
+NCPU = int(os.environ.get("VERIF_PAR") or os.cpu_count() or 4)
 
 
 class ToolError(Exception):
